@@ -15,6 +15,7 @@ import AgeModel.File
 import AgeModel.Extracted.Funcs
 import Proofs.GoTieEncrypt
 import Proofs.GoTieUnwrap
+import Proofs.GoTieSsh
 namespace AgeModel
 namespace GoTie
 open Extracted
@@ -89,6 +90,23 @@ theorem sshRsa_unwrap_tie (P : Prims) {π β γ : Type} (E : RsaEnv P π β γ) 
   · have hb : (ty != [115, 115, 104, 45, 114, 115, 97]) = true := by simp [hty]
     simp only [hb, if_true]
     exact ⟨_, rfl, by simp [resClass, age_ErrIncorrectIdentity, hty]⟩
+
+theorem sshRsa_Unwrap_tie (P : Prims) {π β γ : Type} (E : RsaEnv P π β γ) (key : π) (priv : γ) (ss : List Format.Stanza) :
+    ∃ r, agessh_RSAIdentity_Unwrap errorsIsEq E.Fp E.DecO ⟨priv, key⟩ (ss.map toGoStanza) = .ok r ∧
+      resClass r = (Identity.unwrapLog P (.sshRsa (E.wire key) (E.privOf priv)) ss).1 := by
+  have hU : ∀ s, ∃ r, agessh_RSAIdentity_unwrap E.Fp E.DecO ⟨priv, key⟩ s = .ok r := by
+    intro s
+    obtain ⟨r, hr, _⟩ := sshRsa_unwrap_tie P E key priv ⟨s.Type_, s.Args, s.Body⟩
+    exact ⟨r, hr⟩
+  obtain ⟨r, hr, hcl⟩ := ssh_multiUnwrap_tie _ hU ss
+  refine ⟨r, ?_, ?_⟩
+  · simp only [agessh_RSAIdentity_Unwrap, bind, Except.bind, pure, Except.pure, hr]
+  · rw [hcl]
+    simp only [Identity.unwrapLog]
+    congr 1
+    funext s
+    obtain ⟨r', hr', hc'⟩ := sshRsa_unwrap_tie P E key priv s
+    simp only [stanzaClass, hr', hc']
 
 end GoTie
 end AgeModel
